@@ -45,6 +45,7 @@ pub struct RandCfg {
     pub mdk: MdkConfig,
     pub profile: String, // core | ...
     pub restarts: bool,
+    pub observers: bool,
 }
 
 fn fingerprint(post: &Value) -> String {
@@ -222,6 +223,17 @@ pub fn random_history(cfg: &RandCfg, rng: &mut StdRng, r: &mut Recorder, clients
         }
     }
 
+    // observers are also handed every welcome ever published
+    if cfg.observers {
+        let wnames: Vec<String> = w.welcomes.keys().cloned().collect();
+        for wn in wnames {
+            for c in clients {
+                if w.welcomes[&wn].to != *c {
+                    r.emit(exec_action(&mut w, &json!({"op":"Welcome","c":c,"w":wn,"what":"process"})));
+                }
+            }
+        }
+    }
     // quiescence: offer everything to everyone until a full pass changes nothing
     let mut passes = 0;
     loop {
@@ -236,7 +248,11 @@ pub fn random_history(cfg: &RandCfg, rng: &mut StdRng, r: &mut Recorder, clients
         order.shuffle(rng);
         for (c, e) in order {
             let parent = w.events[&e].parent.clone();
-            if (cfg.regime == "causal" && !held[&c].contains(&parent)) || withdrawn.contains(&e) {
+            // observers (clients without an operational group: never added, pending, evicted) are fed everything
+            // ... and late joiners are also handed the events created before they joined
+            let observer = cfg.observers && (w.project(&c, g)["mls"] != json!("ok")
+                || held[&c].iter().any(|h| h.len() > parent.len() && (parent.is_empty() || h.starts_with(&format!("{parent}.")))));
+            if withdrawn.contains(&e) || (cfg.regime == "causal" && !held[&c].contains(&parent) && !observer) {
                 continue;
             }
             let before = fingerprint(&w.project(&c, g));
